@@ -288,6 +288,7 @@ fn custom_sauce(v: u8, size: icy_engine::Size) -> Option<icy_engine::SauceData> 
             letter_spacing: v & 16 != 0,
             aspect_ratio: v & 32 != 0,
             font: if v & 64 != 0 { Some("IBM VGA50".into()) } else { None },
+            file_type: 0,
         },
         size,
     ))
